@@ -402,6 +402,21 @@ impl<CS: CLCiphersuite> ZKPoK<CL03<CS>> {
     {
         let zkpok = self.to_cl03_zkpok();
 
+        // one proof of knowledge and one range proof per hidden attribute, no more: surplus
+        // entries would be ignored by the loops below
+        let n_hidden = unrevealed_message_indexes.len();
+        if zkpok.proofs_commited_mi.len() != n_hidden
+            || zkpok.range_proofs_mi.len() != n_hidden
+            || zkpok
+                .proof_C_Ctrusted
+                .as_ref()
+                .map(|p| p.responses_len() != n_hidden)
+                .unwrap_or(false)
+        {
+            println!("Number of sub-proofs different from the number of hidden attributes!");
+            return false;
+        }
+
         let mut boolean_C_Ctrusted: bool = true;
         if let Some(C_trusted) = C_trusted {
             if let Some(commitment_pk) = commitment_pk {
